@@ -15,6 +15,7 @@ import z3
 from harness.common import (Job, run_paths, model_int, model_str, zint, V, new_interp, sym_str, program, rng)
 from harness import align_common as AC
 from harness import c01_match_genuine as C01
+from harness import kmer_tables as KT
 
 PROPERTY = "C07"
 ENGINE = "symx"
@@ -35,7 +36,10 @@ def describe():
         "bounds": {"quick": {"(m, n, rates, profile)": QUICK_SHAPES, "profiles": "full = {no wildcards, adapter wildcards, read wildcards} x overlaps {1,2,3,m}; lean = no wildcards, overlaps {1,m}", "adapter alphabet": "ACGT (IUPAC subset ACGTNRX when adapter wildcards are on)", "read alphabet": READ_ALPHABET,
                              "min_overlap": "1, 2, 3 and m", "rates": "representatives below 1, > 0 (rate 0 as well at the small shapes)"},
                    "thorough": {"(m, n, rates, profile)": THOROUGH_SHAPES}},
-        "outside_bounds": ["longer adapters/reads", "read characters outside the listed alphabet (the kernel treats characters only through the match tables)",
+        "table_level": {"what": "harness/kmer_tables.py: for adapter lengths 5..34 (quick) / 5..48 (thorough), every class except the force-anywhere variants, rates %r (quick) / %r (thorough), minimum overlaps {1,3,5,m}, indels on/off, no wildcards: the table that the real constructor hands to KmerFinder (computed by running adapters.py/_make_kmer_finder and kmer_heuristic.py on an adapter of distinct symbols) is checked by z3 against ALL alignment shapes (adapter interval, read position, read length <= 3m+3E+4, up to E=trunc(rate*m) <= %d (%d) errors of any kind at symbolic positions) admitted by placement rule, minimum overlap and tolerance: some k-mer stays intact inside its window" % (KT.RATES_QUICK, KT.RATES_THOROUGH, KT.MAX_E, KT.MAX_E_THOROUGH),
+                        "contracts": "the aligner finds a match only if an admissible alignment exists (C01) - so covering every admissible alignment is sufficient; KmerFinder.kmers_present = 'some k-mer of a set lies inside the set's window' (transcribed; compared with the compiled kmers_present on 1500 random vectors per run)",
+                        "counterexamples": "a satisfiable query is a candidate shape; it is realised as ACGT adapter and read (<= 400 random fill-ins) and reported only if the real match_to differs with and without the prefilter; an unrealised candidate makes the job inconclusive"},
+        "outside_bounds": ["longer adapters/reads in the end-to-end jobs; in the table-level jobs: wildcards, force-anywhere variants, error budgets above the stated maximum", "read characters outside the listed alphabet (the kernel treats characters only through the match tables)",
                            "adapters with k-mers longer than 64 (MockKmerFinder fallback)"],
         "stubs": [],
         "assumptions": ["state mutated by a kernel call that raises is not observed afterwards", "rate representatives as in C01"],
@@ -72,6 +76,8 @@ def jobs(tier, seed):
         for aw, rw in ((False, False), (True, False), (False, True), (True, True)):
             cfg = dict(rate=0.2, adapter_wildcards=aw, read_wildcards=rw, indels=True, min_overlap=3)
             out.append({"name": "pickled-copy/%s/%s" % (kind, AC.cfg_name(cfg)), "fn": "reduce", "kind": kind, "cfg": cfg, "n": 6})
+    # table level (harness/kmer_tables.py): adapter lengths 5..34 (48), every admissible occurrence keeps a k-mer in its window
+    out.extend(KT.table_jobs(tier, seed))
     return out
 
 
@@ -141,6 +147,8 @@ def path_reduce(J, ctx, kind, n, cfg):
 
 
 def run_job(job):
+    if job.get("fn") == "table":
+        return KT.run_table_job(job)
     J = Job(job)
     if job.get("fn") == "reduce":
         return run_paths(J, lambda ctx: path_reduce(J, ctx, job["kind"], job["n"], job["cfg"]), max_paths=50)
@@ -195,6 +203,10 @@ def validate(seed):
         if norm(want) != norm(got):
             mism.append("create_positions_and_kmers%r: real %r encoding %r" % (args, want, got))
     ctx.obligations = []
+    # table level: the window semantics used by harness/kmer_tables.py vs the compiled kmers_present
+    n_w, bad_w = KT.validate_windows(seed)
+    vectors += n_w
+    mism.extend(bad_w)
     return {"vectors": vectors, "mismatches": mism}
 
 
